@@ -30,7 +30,10 @@ ProbeOK(p) ==      \* p : [s, panic, toks : Seq([b, e])], without ignore_space
 (* named deviation Stuck (F12, known finding): a dictionary in which some category has no
    unknown entry is accepted; a probe containing a character whose primary category is such
    a category may panic.  Both facts are read off the real dictionary (nounk, cats). *)
-F12Explains(p, nounk) == DevStuck /\ \E i \in 1..Len(p.cats) : p.cats[i] \in nounk
+(* ... and, where the lexicon surfaces of the INPUT files are known, only at a position where no
+   lexicon entry starts (elsewhere the unknown-word rule is not what keeps the scan going) *)
+NoLexAt(e, s, i) == e.lexknown => ~\E k \in 1..Len(e.lexs) : IsPrefixAt(e.lexs[k], s, i - 1)
+F12Explains(p, nounk) == DevStuck /\ \E i \in 1..Len(p.cats) : p.cats[i] \in nounk /\ NoLexAt(E, p.s, i)
 Build == /\ Is("build")
          /\ LET nounk == RangeOf(E.nounk) IN
             /\ A("C10", "never-panics", E.outcome # "panic")
